@@ -47,6 +47,7 @@ def generate(seed, run, tier):
     mode = sw.choice(['given', 'derived'])
     n_epochs = sw.choice([1, 2, 3, 4, 5, 7, 10, 20, 33, 50]) if sw.chance(0.5) else sw.randint(1, 50)
     faults = {k: sw.chance(0.5) for k in ('repeat', 'skip', 'back', 'late_start', 'overshoot')}
+    faults['fail_read'] = Stream(seed, ID, run, 'failreads').chance(0.35)
     length = sw.randint(3, 14 if tier == 'quick' else 40)
     p_other_n = sw.choice([0.0, 0.0, 0.2, 0.5])
     case = {'kind': kind, 'names': names, 'mode': mode, 'n_epochs': n_epochs}
@@ -90,6 +91,11 @@ def generate(seed, run, tier):
         if r < 0.42:
             ops.append({'op': 'bump_check', 'epoch': epoch, 'name': rs.choice(names), 'delta': rs.loguniform(1e-3, 0.5)})
             continue
+        if faults['fail_read'] and rs.chance(0.2):
+            # a usually-successful call fails: the model's get_cost raises at the k-th read of this regularizer call
+            # (a metric that is not in the cost specification yet, an interrupted batch); the training loop catches
+            # the exception and retries the batch
+            ops.append({'op': 'call', 'epoch': epoch, 'fail_read': rs.randint(1, 2 * len(names))})
         ops.append({'op': 'call', 'epoch': epoch})
         if p_other_n and rs.chance(p_other_n):
             # the same regularizer object is also called at another schedule position: a logging call with
@@ -258,6 +264,20 @@ def execute(case):
                         if p.shape[0] in (6, 8, 4):
                             p.fill_(fr)
         model = Real()
+    # ---- fault seam: the model's get_cost raises at the k-th read after arming --------------------
+    class SimReadFault(RuntimeError):
+        pass
+    armed = {'at': None, 'n': 0}
+    _inner_get_cost = model.get_cost
+
+    def faulty_get_cost(name):
+        if armed['at'] is not None:
+            armed['n'] += 1
+            if armed['n'] == armed['at']:
+                armed['at'] = None
+                raise SimReadFault(name)
+        return _inner_get_cost(name)
+    model.get_cost = faulty_get_cost
     # targets from the placement at time 0
     targets = {}
     for n in names:
@@ -470,6 +490,19 @@ def execute(case):
                 bump('fault_other_schedule_position_on_same_object' +
                      ('_default_args' if op.get('default_call') else ''))
                 pending_fault_flag[0] = True
+            if op.get('fail_read'):
+                # the call dies inside the regularizer; the simulated loop catches the exception and goes on (the very
+                # next op is the retry of the same batch, so lazily derived strengths see the same costs either way)
+                armed['at'], armed['n'] = op['fail_read'], 0
+                try:
+                    reg(model, op['epoch'], n_call)
+                    bump('fault_failing_cost_read_not_reached')
+                except SimReadFault:
+                    bump('fault_failing_cost_read_in_first_call' if not first_call_done else 'fault_failing_cost_read')
+                    pending_fault_flag[0] = True
+                    events.append(f"{i} call epoch={op['epoch']} died at cost read #{op['fail_read']}")
+                armed['at'] = None
+                continue
             do_call(i, op['epoch'], 'call', n_sched=n_call, default_call=op.get('default_call', False))
             epochs_seen.add(op['epoch'])
             nx = op.get('next')
